@@ -2,7 +2,7 @@
 typed expression programs, repository samples, own seeds and token-level mutations of them."""
 from hypothesis import strategies as st
 
-from pbt import corpus, exprgen, gen, model, mutate
+from pbt import apigen, corpus, exprgen, gen, model, mutate, widegen
 
 
 def _texts(kind=None):
@@ -21,6 +21,10 @@ def sources(draw, kinds=("core", "expr", "seed", "mut"), profile=None, max_len=N
     if k == "expr":
         p = draw(exprgen.program(depth=draw(st.integers(1, 3))))
         return {"gen": "expr", "src": p["src"]}
+    if k == "wide":
+        return draw(widegen.programs())
+    if k == "api":
+        return {"gen": "api", "src": draw(apigen.programs())["src"]}
     texts = _texts()
     if k == "seed":
         return {"gen": "seed", "src": texts[draw(st.integers(0, len(texts) - 1))]}
